@@ -21,6 +21,7 @@ KDIR = os.path.join(HERE, 'kani')
 REPO = os.environ.get('VERIF_REPO', '/repo')
 CACHE = os.path.join(HERE, '.cache', 'kani')
 
+HTIMEOUT = ['600s']      # per-harness CBMC budget; the thorough tier raises it (lane())
 HARNESS_RE = re.compile(r'//\s*@harness\s+(\w+)\s+props=([\w,]+)\s+kind=(\S+)(?:\s+tier=(\w+))?')
 
 
@@ -165,7 +166,7 @@ def _run_harnesses(names, playback, timeout, cpath, skip):
     try:
         missing = make_crate(d, skip)
         names_run = [n for n in names if table.get(n, {}).get('module') not in skip]
-        cmd = ['timeout', str(timeout), 'cargo', 'kani', '-Z', 'function-contracts', '-Z', 'stubbing'] + ([] if playback else ['-j', '8']) + ['--output-format', 'terse', '--no-overflow-checks', '-Z', 'unstable-options', '--harness-timeout', os.environ.get('VERIF_KANI_HTIMEOUT', '600s')]
+        cmd = ['timeout', str(timeout), 'cargo', 'kani', '-Z', 'function-contracts', '-Z', 'stubbing'] + ([] if playback else ['-j', '8']) + ['--output-format', 'terse', '--no-overflow-checks', '-Z', 'unstable-options', '--harness-timeout', os.environ.get('VERIF_KANI_HTIMEOUT', HTIMEOUT[0])]
         if playback:
             cmd += ['-Z', 'concrete-playback', '--concrete-playback=print']
         for n in names_run:
@@ -215,6 +216,7 @@ def lane(pid, tier, cov, ledger, findings, assumptions):
     names = [h['name'] for h in table.values() if pid in h['props'] and (tier == 'thorough' or h['tier'] == 'quick')]
     if not names:
         return out
+    HTIMEOUT[0] = '2400s' if tier == 'thorough' else '600s'
     if os.environ.get('VERIF_KANI_BATCH'):
         # one cargo-kani invocation for every harness of the tier (cached per tree state); used when all checks are run in a row
         allnames = [h['name'] for h in table.values() if (tier == 'thorough' or h['tier'] == 'quick')]
